@@ -230,7 +230,7 @@ public:
 
 class NiBlendBoolInterpolator : public NiCloneableStreamable<NiBlendBoolInterpolator, NiBlendInterpolator> {
 public:
-	bool value = false;
+	uint8_t value = 0; // byte in the file, other values than 0 and 1 occur (2 = invalid)
 
 	static constexpr const char* BlockName = "NiBlendBoolInterpolator";
 	const char* GetBlockName() override { return BlockName; }
